@@ -92,6 +92,7 @@ type Engine struct {
 	mapOrder     func(m *MapVal, snap []*mapEntry) []*mapEntry
 	gob          *gobState
 	http         *httpModel
+	janitors     []Value // receivers of the janitor goroutines the constructors wanted to start
 	hashConcLens map[int]bool
 	hashSymLens  map[int]bool
 	hashAlwaysUF bool
@@ -171,6 +172,7 @@ func (e *Engine) resetPath() {
 	e.mapOrder = nil
 	e.gob = nil
 	e.http = nil
+	e.janitors = nil
 	e.hashConcLens = map[int]bool{}
 	e.hashSymLens = map[int]bool{}
 	e.hashApps = nil
